@@ -20,6 +20,7 @@ UIDS = [1, 2, 3, 4]
 NAMES = [100, 101, 102, 103]
 HAS = [200, 201, 202, 203]
 FIELDS = {"move": "FUid", "rename": "FName", "reha": "FHa"}
+OTHER_CLASS = []   # rejections raised with a class other than the intended ValueError
 
 
 class Handler(object):
@@ -86,8 +87,11 @@ def run_impl(ops, puid=None):
                 stack.rehaRemote(objs[op[1]], ha(op[2]))
             elif op[0] == "remove":
                 stack.removeRemote(objs[op[1]])
-        except (ValueError, NameError):
+        except ValueError:
             oc = "Rejected"
+        except NameError as ex:      # still a rejection for THIS property; class recorded (see run)
+            oc = "Rejected"
+            OTHER_CLASS.append((list(op), "NameError: %s" % ex))
         except KeyError:
             oc = "KeyErr"
         out.append((oc,) + snapshot(stack, objs))
@@ -258,6 +262,12 @@ def run(ctx):
         ctx.tie_broken("correspondence", "C37 model vs RemoteStack", "ops=%r impl=%r" % metas[i])
     ctx.extra["mismatches"] = len(bad)
     ctx.exhaustive = False
+    # The model rejects with one class only (ValueError, Model.rejection_class).  A rejection raised as
+    # another class (removeRemote's undefined `uid` -> NameError before fixes/C37-removeremote-nameerror.patch)
+    # does not contradict C37's statement (nothing changes), so it does not alarm; it is measured here.
+    ctx.extra["rejections_not_ValueError"] = {"count": len(OTHER_CLASS), "examples": OTHER_CLASS[:3]}
+    ctx.extra["outcome_distribution"] = {k: sum(1 for _, res in metas for r in res if r[0] == k)
+                                         for k in ("Done", "Rejected", "KeyErr")}
 
     def search():
         best = None
